@@ -81,7 +81,7 @@ func TestC10(t *testing.T) {
 
 func TestC08(t *testing.T) {
 	spec := &GenSpec{Prop: "C08", Backings: allBackings, MaxOps: 40, Holds: true, Reopen: true, Merge: true,
-		KeyPoolMax: 4, Children: exclChildren("C08"), Compaction: []int{0, 1, 1, 2}}
+		KeyPoolMax: 4, Children: exclChildren("C08"), ChildPct: 55, Compaction: []int{0, 1, 1, 2}}
 	applyExclusions(spec)
 	histCheck(t, spec, oraclesFor[spec.Prop],
 		"histories over 1-4 keys with Set/Del/Merge under an order- and structure-sensitive operator ('(' existing '|' operand ')'), with merger cycles, held persister rounds, partial/full compaction, reopen, CachePersisted, application lower level; every read (snapshot Get + iteration after every op, store / lower-level content after every completed round, content after reopen) must equal the model fold. Non-trivial: a Merge operation and an older operation on the same key sit in different sections at a read moment. Distinct = distinct program hash.",
@@ -108,7 +108,7 @@ func TestC20(t *testing.T) {
 
 func TestC04(t *testing.T) {
 	spec := &GenSpec{Prop: "C04", Backings: []string{"store"}, MaxOps: 30, Holds: true, Reopen: true, EarlyClose: true,
-		Children: exclChildren("C04"), BigBatches: true, ReopenCfg: true}
+		Children: exclChildren("C04"), ChildPct: 50, BigBatches: true, ReopenCfg: true}
 	applyExclusions(spec)
 	histCheck(t, spec, oraclesFor[spec.Prop],
 		"store-backed histories with 1-4 close/reopen cycles; close point generated: caught-up (controller runs merger cycles and rounds until every batch is covered by a completed round - event-confirmed) or early (batches still in top/mid/base, persister held at a gate); options may change on reopen. Caught-up: reopened collection == full reference. Early: reopened content == reference after some prefix p >= the prefix covered by the last completed round, never a mixture. Non-trivial: a caught-up reopen after >= 2 completed rounds that carried batches, or an early close that really lost a suffix. Distinct = distinct program hash.",
